@@ -23,7 +23,8 @@ def fmtFixed (v : Int) (width dec : Nat) : List Char :=
   let s := if v < 0 then '-' :: body else body
   List.replicate (width - s.length) ' ' ++ s
 
-def intText (i : Int) : List Char := (toString i).toList
+/-- `to_string` of a signed integer -/
+def intText (i : Int) : List Char := if i < 0 then '-' :: natDigits i.natAbs else natDigits i.natAbs
 
 /-- one cell of `get_line`: `length = 0` copies the text; otherwise the last `length` characters (texts are
 ASCII), leading zeros removed from all-digit cells, left aligned and padded -/
@@ -86,6 +87,12 @@ def seqresLines (lvl : Strictness) (ch : Chain) (db : Option DbRef) : List (List
 def atomLinePrefix (a : Atom) (c : Conformer) (r : Residue) (ch : Chain) : List Char :=
   getLine [(5, natDigits a.serial), (0, S " "), (4, S a.name), (1, (c.alt.getD " ").toList),
     (4, S c.name), (1, S ch.id), (4, intText r.serial), (1, (r.icode.getD " ").toList)]
+
+/-- the ATOM / HETATM record of one atom -/
+def atomLine (lvl : Strictness) (a : Atom) (c : Conformer) (r : Residue) (ch : Chain) : List Char :=
+  printLine lvl [(6, if a.hetero then S "HETATM" else S "ATOM  "), (0, atomLinePrefix a c r ch), (0, S "   "),
+    (8, fmtFixed a.x 8 3), (8, fmtFixed a.y 8 3), (8, fmtFixed a.z 8 3), (6, fmtFixed a.occ 6 2), (6, fmtFixed a.b 6 2),
+    (0, S "          "), (2, elementSymbol a.element), (0, pdbCharge a.charge)]
 
 /-- values of the file in exact micro-units (`none` when some value is not exact) -/
 structure WMeta where
@@ -170,9 +177,7 @@ def savePdb (lvl : Strictness) (p : PDB) (m : WMeta) : List (List Char) :=
     ((md.chains.filter fun c => !c.atoms.isEmpty).flatMap fun ch =>
       (ch.residues.flatMap fun r => r.conformers.flatMap fun c => c.atoms.flatMap fun a =>
         let el := elementSymbol a.element
-        [pl [(6, if a.hetero then S "HETATM" else S "ATOM  "), (0, atomLinePrefix a c r ch), (0, S "   "),
-             (8, fmtFixed a.x 8 3), (8, fmtFixed a.y 8 3), (8, fmtFixed a.z 8 3), (6, fmtFixed a.occ 6 2), (6, fmtFixed a.b 6 2),
-             (0, S "          "), (2, el), (0, pdbCharge a.charge)]] ++
+        [atomLine lvl a c r ch] ++
         (match a.atf with
          | some t =>
            let v (i : Nat) : List Char :=
